@@ -41,6 +41,15 @@ fn forms() -> Vec<Form> {
         f("var", "var", false, "", "var x = {OLD}\nx {OP} {RHS}\nprintln(x)\n", false),
         f("let-tuple", "let", false, "", "let (x, y) = ({OLD}, 1)\nx {OP} {RHS}\nprintln(x)\n", false),
         f("var-tuple", "var", false, "", "var (y, x) = (1, {OLD})\nx {OP} {RHS}\nprintln(x)\n", false),
+        // let / var patterns with variant, named-variant, struct and or sub-patterns (record_pat_mutability)
+        f("let-variant", "let", false, "type Wo = | Only({TY})\n", "let (Wo.Only(x), y) = (Wo.Only({OLD}), 1)\nx {OP} {RHS}\nprintln(x)\n", false),
+        f("var-variant", "var", false, "type Wo = | Only({TY})\n", "var (Wo.Only(x), y) = (Wo.Only({OLD}), 1)\nx {OP} {RHS}\nprintln(x)\n", false),
+        f("let-variant-named", "let", false, "type Tw = | Aa(p: {TY}, q: int)\n", "let (Tw.Aa(p = x, q = y), z) = (Tw.Aa(p = {OLD}, q = 2), 1)\nx {OP} {RHS}\nprintln(x)\n", false),
+        f("var-variant-named", "var", false, "type Tw = | Aa(p: {TY}, q: int)\n", "var (Tw.Aa(p = x, q = y), z) = (Tw.Aa(p = {OLD}, q = 2), 1)\nx {OP} {RHS}\nprintln(x)\n", false),
+        f("let-struct", "let", false, "type Pq = { v: {TY}, w: int }\n", "let Pq(v = x, w = _) = Pq({OLD}, 1)\nx {OP} {RHS}\nprintln(x)\n", false),
+        f("var-struct", "var", false, "type Pq = { v: {TY}, w: int }\n", "var Pq(x, _) = Pq({OLD}, 1)\nx {OP} {RHS}\nprintln(x)\n", false),
+        f("let-or-pattern", "let", false, "", "let ((x, _) | (_, x)): ({TY}, {TY}) = ({OLD}, {OLD})\nx {OP} {RHS}\nprintln(x)\n", false),
+        f("var-or-pattern", "var", false, "", "var ((x, _) | (_, x)): ({TY}, {TY}) = ({OLD}, {OLD})\nx {OP} {RHS}\nprintln(x)\n", false),
         f("for", "for", false, "", "for x in [{OLD}] {\n  x {OP} {RHS}\n  println(x)\n}\n", false),
         f("for-tuple", "for", false, "", "for (x, y) in [({OLD}, 1)] {\n  x {OP} {RHS}\n  println(x)\n}\n", false),
         f("match", "match", false, "", "match {OLD} {\n  x -> {\n    x {OP} {RHS}\n    println(x)\n  }\n}\n", false),
